@@ -612,6 +612,16 @@ func (e *Env) call(ce *CE) (CVal, error) {
 			return CVal{}, err
 		}
 		return CVal{T: SCap(v.T), Ty: I}, nil
+	case "base":
+		// identity of a slice's backing array; base(a) != base(b) states that a and b do not share storage
+		v, err := e.eval(args[0])
+		if err != nil {
+			return CVal{}, err
+		}
+		if v.T == nil || v.T.Sort != SSlice {
+			return CVal{}, fmt.Errorf("base of non-slice %s", args[0])
+		}
+		return CVal{T: SBase(v.T), Ty: I}, nil
 	case "bytes", "str":
 		s, err := e.strArg(args[0])
 		if err != nil {
